@@ -2903,9 +2903,23 @@ again:
 		}
 		strm->ncch = j;
 	}
-	/* convert to target scale */
-	for (size_t i = 0U; i < strm->ncch; i++) {
-		strm->cch[i] = echs_instant_rescale(strm->cch[i], strm->cal);
+	/* convert to target scale, which needn't reach as far as the rule */
+	with (size_t j = 0U) {
+		for (size_t i = 0U; i < strm->ncch; i++) {
+			const echs_instant_t x =
+				echs_instant_rescale(strm->cch[i], strm->cal);
+
+			if (LIKELY(!echs_nul_instant_p(x))) {
+				strm->cch[j++] = x;
+			}
+		}
+		if (UNLIKELY(j < strm->ncch)) {
+			/* that's where it ends then */
+			strm->seed = strm->e.from = echs_nul_instant();
+			if (!(strm->ncch = j)) {
+				return 0UL;
+			}
+		}
 	}
 	/* otherwise sort the array, just in case */
 	echs_instant_sort(strm->cch, strm->ncch);
